@@ -155,7 +155,7 @@ func init() {
 			json.Unmarshal(raw, &a)
 			return realGlue(a)
 		},
-		DriverOp: "dotenv",
+		DriverOp: "dotenvPWL",
 		Judge: func(args, real, drv json.RawMessage) *core.Verdict {
 			if v := core.CrashVerdict(real); v != nil {
 				return v
@@ -167,10 +167,8 @@ func init() {
 					return core.Fail("entrypoints-differ:"+strings.TrimPrefix(k, "differs:"), fmt.Sprintf("%s gives %s, UnmarshalWithLookup gives %s", strings.TrimPrefix(k, "differs:"), v, r["out"]))
 				}
 			}
-			var a glueArgs
-			json.Unmarshal(args, &a)
-			if !strings.HasPrefix(a.Src, "\uFEFF") && !core.CanonEqual(r["out"], drv) {
-				return core.Disagree("Dotenv.parse ≠ dotenv.UnmarshalWithLookup (glue stream)")
+			if !core.CanonEqual(r["out"], drv) {
+				return core.Disagree("Dotenv.parseWithFormat (dotenv parser registered) ≠ dotenv.ParseWithFormat / ParseWithLookup")
 			}
 			return nil
 		},
